@@ -196,7 +196,7 @@ def fam_iter(cfg, tier, rng):
         for l in range(0, n + 3):
             for pat in itertools.product("FB", repeat=l):
                 p = "".join(pat) or "-"
-                for k in ("ref", "mut", "tref", "tmut"):
+                for k in ("ref", "mut", "tref", "tmut", "iref", "imut", "itref", "itmut"):
                     out.append(pre + ["iter %s 0 %s" % (k, p)])
         # range iterators: every sub-range
         for s in range(0, n + 1):
@@ -742,7 +742,7 @@ def fam_iter_nth(cfg, tier, rng):
     """C13/C14: Iterator::nth / nth_back (the i-th item, overshoot, calls after exhaustion)."""
     L = 3 if tier == "quick" else 5
     out = []
-    kinds = ("ref", "tmut") if tier == "quick" else ("ref", "mut", "tref", "tmut")
+    kinds = ("ref", "tmut", "imut", "itref") if tier == "quick" else ("ref", "mut", "tref", "tmut", "iref", "imut", "itref", "itmut")
     for n in range(0, max_len(cfg, L) + 1):
         pre = prefix(cfg, [n, 0])
         steps = [c + str(k) for c in "FB" for k in range(0, min(n + 1, 3 if tier == "quick" else 5) + 1)]
